@@ -13,33 +13,126 @@ open Osmium.PbfSpec (Choices)
 theorem spec_convCoord_coord (g off c7 : Int) (hg : 0 < g) (hoff : -(2:Int) ^ 61 ≤ off ∧ off ≤ (2:Int) ^ 61)
     (hc : -(2:Int) ^ 31 ≤ c7 ∧ c7 < (2:Int) ^ 31) (hr : CoordRep g off c7) :
     convCoord g off (PbfSpec.coord g off c7) = c7 := by
-  sorry
+  have _ := hg
+  unfold convCoord PbfSpec.coord wrap64
+  have hmul : (100 * c7 - off) / g * g = 100 * c7 - off := Int.ediv_mul_cancel hr
+  rw [hmul]
+  have h1 : Delta.swrap 64 (100 * c7 - off) = 100 * c7 - off :=
+    Delta.swrap64_id _ (by simp only [Int.reducePow] at *; omega) (by simp only [Int.reducePow] at *; omega)
+  rw [h1]
+  have h2 : Delta.swrap 64 (100 * c7 - off + off) = 100 * c7 :=
+    by
+      rw [Delta.swrap64_id _ (by simp only [Int.reducePow] at *; omega) (by simp only [Int.reducePow] at *; omega)]
+      omega
+  rw [h2, Int.mul_tdiv_cancel_left _ (by decide : (100:Int) ≠ 0)]
+  unfold toInt32 u64
+  simp only [Int.reducePow, Nat.reducePow] at *
+  omega
+
+theorem spec_ediv_abs (x g B : Int) (hg : 0 < g) (h1 : -B < x) (h2 : x < B) : -B < x / g ∧ x / g < B := by
+  by_cases hx : 0 ≤ x
+  · have a := Int.ediv_le_self g hx
+    have b := Int.ediv_nonneg hx (Int.le_of_lt hg)
+    omega
+  · have hx' : x < 0 := by omega
+    have a : x / g < 0 := Int.ediv_neg_of_neg_of_pos hx' hg
+    have b : x ≤ x / g := by
+      rw [Int.le_ediv_iff_mul_le hg]
+      have : x * g ≤ x * 1 := Int.mul_le_mul_of_nonpos_left (by omega) (by omega)
+      omega
+    omega
 
 /-- stored coordinates are far inside int64, so that differences of two of them are int64 values -/
 theorem spec_coord_bound (g off c7 : Int) (hg : 0 < g) (hoff : -(2:Int) ^ 61 ≤ off ∧ off ≤ (2:Int) ^ 61)
     (hc : -(2:Int) ^ 31 ≤ c7 ∧ c7 < (2:Int) ^ 31) :
     -(2:Int) ^ 62 < PbfSpec.coord g off c7 ∧ PbfSpec.coord g off c7 < (2:Int) ^ 62 := by
-  sorry
+  unfold PbfSpec.coord
+  exact spec_ediv_abs _ g _ hg (by simp only [Int.reducePow] at *; omega) (by simp only [Int.reducePow] at *; omega)
+
+theorem spec_stamp_bound (dg : Int) (ts : Nat) (hdg : 0 < dg) (hts : ts < 2 ^ 32) :
+    0 ≤ PbfSpec.stamp dg ts ∧ PbfSpec.stamp dg ts < (2:Int) ^ 42 := by
+  unfold PbfSpec.stamp
+  have hx : (0:Int) ≤ 1000 * (ts : Int) := by omega
+  have a := Int.ediv_le_self dg hx
+  have b := Int.ediv_nonneg hx (Int.le_of_lt hdg)
+  simp only [Int.reducePow, Nat.reducePow] at *
+  omega
 
 /-- `set_timestamp(v * date_factor / 1000)` undoes `stored = milliseconds / date_granularity` on the grid -/
 theorem spec_convTimestamp_stamp (dg : Int) (ts : Nat) (hdg : 0 < dg ∧ dg < (2:Int) ^ 31) (hts : ts < 2 ^ 32)
     (hr : dg ∣ 1000 * (ts : Int)) : convTimestamp dg (PbfSpec.stamp dg ts) = ts := by
-  sorry
+  have _ := hdg
+  unfold convTimestamp PbfSpec.stamp wrap64
+  have hmul : 1000 * (ts : Int) / dg * dg = 1000 * (ts : Int) := Int.ediv_mul_cancel hr
+  rw [hmul]
+  rw [Delta.swrap64_id _ (by simp only [Nat.reducePow, Int.reducePow] at *; omega)
+    (by simp only [Nat.reducePow, Int.reducePow] at *; omega)]
+  rw [Int.mul_tdiv_cancel_left _ (by decide : (1000:Int) ≠ 0)]
+  rw [u64_nat ts (by simp only [Nat.reducePow] at *; omega)]
+  exact Nat.mod_eq_of_lt hts
 
-theorem spec_stamp_bound (dg : Int) (ts : Nat) (hdg : 0 < dg) (hts : ts < 2 ^ 32) :
-    0 ≤ PbfSpec.stamp dg ts ∧ PbfSpec.stamp dg ts < (2:Int) ^ 42 := by
-  sorry
+theorem spec_idxGo_mem (s : Bytes) : ∀ (l : List Bytes) (k : Nat), s ∈ l →
+    k ≤ PbfSpec.idxGo s l k ∧ PbfSpec.idxGo s l k < k + l.length ∧ l[PbfSpec.idxGo s l k - k]? = some s := by
+  intro l
+  induction l with
+  | nil => intro k h; simp at h
+  | cons x xs ih =>
+    intro k h
+    unfold PbfSpec.idxGo
+    by_cases hx : x = s
+    · simp [hx]
+    · simp only [hx, if_false]
+      have hm : s ∈ xs := by
+        rcases List.mem_cons.1 h with h | h
+        · exact absurd h.symm hx
+        · exact h
+      obtain ⟨a, b, c⟩ := ih (k + 1) hm
+      refine ⟨by omega, by simp only [List.length_cons]; omega, ?_⟩
+      have : PbfSpec.idxGo s xs (k + 1) - k = (PbfSpec.idxGo s xs (k + 1) - (k + 1)) + 1 := by omega
+      rw [this, List.getElem?_cons_succ]
+      exact c
 
 /-- every string of an object of the block is found in the block's table at an index ≥ 1 -/
 theorem spec_tableFor_ok (ch : Choices) (os : List Object) (ob : Object) (hob : ob ∈ os)
     (hlen : (PbfSpec.tableFor ch os).length ≤ 2 ^ 31) :
     ∀ s ∈ PbfSpec.stringsOf ob, TableOk (PbfSpec.tableFor ch os) s := by
-  sorry
+  intro s hs
+  have hused : s ∈ os.flatMap PbfSpec.stringsOf := List.mem_flatMap.2 ⟨ob, hob, hs⟩
+  unfold TableOk PbfSpec.idx
+  generalize hr : ch.tablePrefix ++ os.flatMap PbfSpec.stringsOf ++
+    (if ch.tableDup then os.flatMap PbfSpec.stringsOf else []) = rest
+  have ht : PbfSpec.tableFor ch os = [] :: rest := by
+    unfold PbfSpec.tableFor
+    simp only [← hr, List.cons_append, List.append_assoc]
+  have hm : s ∈ rest := by
+    rw [← hr]
+    exact List.mem_append_left _ (List.mem_append_right _ hused)
+  rw [ht] at hlen ⊢
+  simp only [List.tail_cons]
+  obtain ⟨a, b, c⟩ := spec_idxGo_mem s rest 1 hm
+  simp only [List.length_cons] at hlen
+  refine ⟨by omega, by omega, ?_⟩
+  have : PbfSpec.idxGo s rest 1 = (PbfSpec.idxGo s rest 1 - 1) + 1 := by omega
+  rw [this, List.getElem?_cons_succ]
+  exact c
 
 /-- all table entries respect the string limit -/
 theorem spec_tableFor_short (ch : Choices) (hch : ChoicesOk ch) (os : List Object)
     (hs : ∀ ob ∈ os, ∀ s ∈ PbfSpec.stringsOf ob, s.length ≤ 1024) :
     ∀ s ∈ PbfSpec.tableFor ch os, s.length ≤ 1024 := by
-  sorry
+  intro s h
+  have hu : ∀ s ∈ os.flatMap PbfSpec.stringsOf, s.length ≤ 1024 := by
+    intro s h
+    obtain ⟨ob, hob, hsob⟩ := List.mem_flatMap.1 h
+    exact hs ob hob s hsob
+  unfold PbfSpec.tableFor at h
+  simp only [List.cons_append, List.mem_cons, List.mem_append] at h
+  rcases h with h | (h | h) | h
+  · simp [h]
+  · exact hch.pad s h
+  · exact hu s h
+  · split at h
+    · exact hu s h
+    · simp at h
 
 end Osmium.Pbf
